@@ -1,4 +1,5 @@
 import OH.Proofs.EvalSpecMonad
+import OH.Proofs.EvalSpecSat
 import OH.Proofs.CalendarEval
 import OH.Spec.Rules
 import OH.Model.ParserWF
@@ -62,119 +63,54 @@ theorem monthFilter_eq (lo hi : Nat) (yr : Option Nat) (d : Int) (h0 : 0 ≤ yea
     simp only [beq_iff_eq, decide_eq_true_eq]
     omega
 
-/-! ### weekday and holiday ranges -/
+/-! ### weekday and holiday ranges
 
-/-- `add_days_saturating(date, offset.saturating_neg())` is `date - offset` whenever both the date
-and the shifted date are representable -/
-theorem addDaysSat_satNeg {d off : Int} (hd : minDay ≤ d ∧ d ≤ maxDay)
-    (hr : minDay ≤ d - off ∧ d - off ≤ maxDay) : addDaysSat d (satNeg off) = d - off := by
-  rw [minDay_eq, maxDay_eq] at hd hr
-  have e : satNeg off = -off := by unfold satNeg; rw [if_neg (by omega)]
-  rw [e, addDaysSat_eq (by omega) (by rw [minDay_eq]; omega) (by rw [maxDay_eq]; omega)]
-  omega
-
-/-- outside the representable days the shifted date saturates at `NaiveDate::MIN` / `MAX` -/
-theorem addDaysSat_satNeg_sat {d off : Int} (hd : minDay ≤ d ∧ d ≤ maxDay)
-    (hr : ¬ (minDay ≤ d - off ∧ d - off ≤ maxDay)) :
-    addDaysSat d (satNeg off) = minDay ∨ addDaysSat d (satNeg off) = maxDay := by
-  unfold addDaysSat
-  split
-  · split <;> simp
-  · split
-    · rename_i r h
-      rw [addDays?_eq_some_iff] at h
-      exfalso
-      rw [minDay_eq, maxDay_eq] at hd hr h
-      unfold satNeg at h
-      split at h <;> omega
-    · split <;> simp
-
-/-- the calendar holds no day outside the representable ones and neither of the two extreme days
-(`NaiveDate::MIN`, `NaiveDate::MAX`), at which shifted dates saturate -/
-def calInterior (c : List Day) : Bool := c.all (fun x => decide (minDay < x ∧ x < maxDay))
-
-/-- Scope of the weekday selectors.  The implementation shifts the evaluated day by the offset with
-*saturation* at the ends of chrono's representable dates (±262 000 years); the documented semantics
-shift exactly.  The two agree when the shifted day is representable — guaranteed for every day of
-1900–9999 when `|offset| ≤ 92 093 339` days — and, for holidays, also when the calendar does not
-contain the two extreme representable days. -/
-def offSmall (off : Int) : Bool := decide (-92093339 ≤ off ∧ off ≤ 92093339)
-
-def wdayScope (ctx : Ctx) : WeekDayRange → Bool
-  | .fixed _ _ off _ _ => offSmall off
-  | .holiday k off => offSmall off || calInterior (match k with | .pub => ctx.pub | .school => ctx.school)
-
-/-- a day of 1899-12-31 … 9999-12-31 shifted by a small offset is representable -/
-theorem offSmall_repr {d off : Int} (h : offSmall off = true) (h1 : dateStart - 1 ≤ d) (h2 : d < dateEnd) :
-    minDay ≤ d - off ∧ d - off ≤ maxDay := by
-  simp only [offSmall, decide_eq_true_eq] at h
-  rw [dateStart_eq] at h1; rw [dateEnd_eq] at h2; rw [minDay_eq, maxDay_eq]
-  omega
+The specification shifts the evaluated day with the same saturating shift as the code
+(`addDaysSat d (satNeg off)`), so no bound on the offset is involved. -/
 
 theorem window_repr {d : Int} (h1 : dateStart - 1 ≤ d) (h2 : d < dateEnd) : minDay ≤ d ∧ d ≤ maxDay := by
   rw [dateStart_eq] at h1; rw [dateEnd_eq] at h2; rw [minDay_eq, maxDay_eq]
   omega
 
-theorem cal_shift_eq (cal : List Day) (off d : Int)
-    (hsc : (offSmall off || calInterior cal) = true) (h1 : dateStart - 1 ≤ d) (h2 : d < dateEnd) :
-    cal.contains (addDaysSat d (satNeg off)) = cal.contains (d - off) := by
-  have hd := window_repr h1 h2
-  by_cases hr : minDay ≤ d - off ∧ d - off ≤ maxDay
-  · rw [addDaysSat_satNeg hd hr]
-  · simp only [Bool.or_eq_true] at hsc
-    rcases hsc with hsc | hsc
-    · exact absurd (offSmall_repr hsc h1 h2) hr
-    · -- neither the saturated day nor the exactly shifted day is in the calendar
-      simp only [calInterior, List.all_eq_true, decide_eq_true_eq] at hsc
-      have n1 : cal.contains (d - off) = false := by
-        rw [Bool.eq_false_iff]; intro hc
-        have := hsc _ (List.contains_iff_mem.mp hc)
-        omega
-      have n2 : cal.contains (addDaysSat d (satNeg off)) = false := by
-        rw [Bool.eq_false_iff]; intro hc
-        have := hsc _ (List.contains_iff_mem.mp hc)
-        rcases addDaysSat_satNeg_sat hd hr with e | e <;> omega
-      rw [n1, n2]
-
-theorem holidayFilter_eq (ctx : Ctx) (k : HolidayKind) (off d : Int)
-    (hsc : wdayScope ctx (.holiday k off) = true) (h1 : dateStart - 1 ≤ d) (h2 : d < dateEnd) :
+theorem holidayFilter_eq (ctx : Ctx) (k : HolidayKind) (off d : Int) :
     WeekDayRange.filter ctx (.holiday k off) d = .ok (OH.Spec.weekdayOk ctx (.holiday k off) d) := by
   unfold WeekDayRange.filter OH.Spec.weekdayOk calContains
   simp only [pure_eq_ok]
-  cases k <;> simp only [wdayScope] at hsc ⊢ <;> rw [cal_shift_eq _ off d hsc h1 h2]
+  cases k <;> rfl
 
 theorem nthGet_ok (l : List Bool) (i : Nat) (site : String) (h : i < l.length) :
     nthGet l i site = .ok (l.getD i false) := by
   unfold nthGet
   simp [List.getD, List.getElem?_eq_getElem h]
 
-/-- non-wrapping `WeekDayRange::Fixed::filter` -/
+/-- non-wrapping `WeekDayRange::Fixed::filter`, on the shifted day `d'` -/
 theorem wdayFixedSimple_eq (lo hi : Nat) (off : Int) (ns ne : List Bool) (d : Int)
-    (hns : ns.length = 5) (hne : ne.length = 5) (hd : minDay ≤ d ∧ d ≤ maxDay)
-    (hr : minDay ≤ d - off ∧ d - off ≤ maxDay) :
-    wdayFixedSimple lo hi off ns ne d = .ok (OH.Spec.inWrap lo hi (weekday (d - off)) &&
-      (ns.getD ((dayOfMonth (d - off) - 1) / 7) false
-        || ne.getD ((daysInMonth (year (d - off)) (Cal.month (d - off)) - dayOfMonth (d - off)) / 7) false)) := by
+    (hns : ns.length = 5) (hne : ne.length = 5) :
+    wdayFixedSimple lo hi off ns ne d = .ok (OH.Spec.inWrap lo hi (weekday (addDaysSat d (satNeg off))) &&
+      (ns.getD ((dayOfMonth (addDaysSat d (satNeg off)) - 1) / 7) false
+        || ne.getD ((daysInMonth (year (addDaysSat d (satNeg off))) (Cal.month (addDaysSat d (satNeg off)))
+              - dayOfMonth (addDaysSat d (satNeg off))) / 7) false)) := by
+  have hr := addDaysSat_repr d (satNeg off)
   unfold wdayFixedSimple
-  simp only [addDaysSat_satNeg hd hr, countDaysInMonth_eq _ hr.1 hr.2, ok_bind, pure_eq_ok]
-  have hb := dayOfMonth_bounds (d - off)
-  have hm := daysInMonth_bounds (year (d - off)) (Cal.month (d - off))
+  generalize addDaysSat d (satNeg off) = d' at hr
+  simp only [countDaysInMonth_eq _ hr.1 hr.2, ok_bind, pure_eq_ok]
+  have hb := dayOfMonth_bounds d'
+  have hm := daysInMonth_bounds (year d') (Cal.month d')
   rw [if_neg (by omega), wrappingContains_eq_inWrap]
-  cases OH.Spec.inWrap lo hi (weekday (d - off))
+  cases OH.Spec.inWrap lo hi (weekday d')
   · simp
   · simp only [if_true, Bool.true_and]
     rw [nthGet_ok _ _ _ (by omega), nthGet_ok _ _ _ (by omega)]
     simp only [ok_bind]
-    cases ns.getD ((dayOfMonth (d - off) - 1) / 7) false <;> simp
+    cases ns.getD ((dayOfMonth d' - 1) / 7) false <;> simp
 
 theorem fixedFilter_eq (ctx : Ctx) (lo hi : Nat) (off : Int) (ns ne : List Bool) (d : Int)
-    (hlo : lo ≤ 6) (hns : ns.length = 5) (hne : ne.length = 5)
-    (hd : minDay ≤ d ∧ d ≤ maxDay) (hr : minDay ≤ d - off ∧ d - off ≤ maxDay) :
+    (hlo : lo ≤ 6) (hns : ns.length = 5) (hne : ne.length = 5) :
     WeekDayRange.filter ctx (.fixed lo hi off ns ne) d = .ok (OH.Spec.weekdayOk ctx (.fixed lo hi off ns ne) d) := by
   unfold WeekDayRange.filter OH.Spec.weekdayOk
-  simp only [wdayFixedSimple_eq _ _ off ns ne d hns hne hd hr, ok_bind, pure_eq_ok]
-  have hw := weekday_lt (d - off)
-  generalize weekday (d - off) = w at hw
+  simp only [wdayFixedSimple_eq _ _ off ns ne d hns hne, ok_bind, pure_eq_ok]
+  have hw := weekday_lt (addDaysSat d (satNeg off))
+  generalize weekday (addDaysSat d (satNeg off)) = w at hw
   generalize (ns.getD _ false || ne.getD _ false) = nth
   by_cases h : lo > hi
   · rw [if_pos h]
@@ -188,15 +124,14 @@ theorem fixedFilter_eq (ctx : Ctx) (lo hi : Nat) (off : Int) (ns ne : List Bool)
     cases decide (lo ≤ w) <;> cases decide (w ≤ hi) <;> cases nth <;> rfl
   · rw [if_neg h]
 
-theorem weekdayFilter_eq (ctx : Ctx) (r : WeekDayRange) (d : Int) (hwf : r.wf = true)
-    (hsc : wdayScope ctx r = true) (h1 : dateStart - 1 ≤ d) (h2 : d < dateEnd) :
+/-- `WeekDayRange::filter` = `weekdayOk`, for every day and every offset -/
+theorem weekdayFilter_eq (ctx : Ctx) (r : WeekDayRange) (d : Int) (hwf : r.wf = true) :
     WeekDayRange.filter ctx r d = .ok (OH.Spec.weekdayOk ctx r d) := by
   cases r with
-  | holiday k off => exact holidayFilter_eq ctx k off d hsc h1 h2
+  | holiday k off => exact holidayFilter_eq ctx k off d
   | fixed lo hi off ns ne =>
     simp only [WeekDayRange.wf, Bool.and_eq_true, decide_eq_true_eq, beq_iff_eq] at hwf
     exact fixedFilter_eq ctx lo hi off ns ne d hwf.1.1.1.1 hwf.1.2 hwf.2
-      (window_repr h1 h2) (offSmall_repr hsc h1 h2)
 
 /-! ### the four selectors together -/
 
@@ -205,8 +140,6 @@ theorem weekdayFilter_eq (ctx : Ctx) (r : WeekDayRange) (d : Int) (hwf : r.wf = 
 def DatedAgreeSel (s : DaySelector) (d : Int) : Prop :=
   ∀ a so b eo, MonthdayRange.date a so b eo ∈ s.monthday →
     MonthdayRange.filter (.date a so b eo) d = .ok (OH.Spec.datedOk a so b eo d)
-
-def selScope (ctx : Ctx) (s : DaySelector) : Bool := s.weekday.all (wdayScope ctx)
 
 /-- the `applies` conjunction of the specification, on a selector -/
 def selOk (ctx : Ctx) (s : DaySelector) (d : Int) : Bool :=
@@ -226,11 +159,10 @@ theorem year_window {d : Int} (h1 : dateStart - 1 ≤ d) (h2 : d < dateEnd) : 18
 
 /-- `DaySelector::filter` never fails and computes the specification's conjunction -/
 theorem daySelectorFilter_eq (ctx : Ctx) (s : DaySelector) (d : Int) (hwf : s.wf = true)
-    (hsc : selScope ctx s = true) (hda : DatedAgreeSel s d) (h1 : dateStart - 1 ≤ d) (h2 : d < dateEnd) :
+    (hda : DatedAgreeSel s d) (h1 : dateStart - 1 ≤ d) (h2 : d < dateEnd) :
     DaySelector.filter ctx s d = .ok (selOk ctx s d) := by
   simp only [DaySelector.wf, Bool.and_eq_true, List.all_eq_true] at hwf
   obtain ⟨⟨⟨wy, wm⟩, ww⟩, wd⟩ := hwf
-  simp only [selScope, List.all_eq_true] at hsc
   have hy := year_window h1 h2
   have e1 : listFilter (·.filter d) s.year = .ok (OH.Spec.anyOrEmpty s.year (OH.Spec.yearOk · d)) :=
     listFilter_ok _ _ _ (fun r hr => by
@@ -248,7 +180,7 @@ theorem daySelectorFilter_eq (ctx : Ctx) (s : DaySelector) (d : Int) (hwf : s.wf
       simp only [WeekRange.wf, Bool.and_eq_true, decide_eq_true_eq] at this
       exact weekFilter_eq r d (by omega))
   have e4 : listFilter (·.filter ctx d) s.weekday = .ok (OH.Spec.anyOrEmpty s.weekday (OH.Spec.weekdayOk ctx · d)) :=
-    listFilter_ok _ _ _ (fun r hr => weekdayFilter_eq ctx r d (wd r hr) (hsc r hr) h1 h2)
+    listFilter_ok _ _ _ (fun r hr => weekdayFilter_eq ctx r d (wd r hr))
   unfold DaySelector.filter selOk
   simp only [e1, e2, e3, e4, ok_bind]
   cases OH.Spec.anyOrEmpty s.year (OH.Spec.yearOk · d) <;>
